@@ -1,7 +1,7 @@
 SPECIFICATION TraceSpec
 CONSTANTS
   Deviations = {}
-  LetterChars = {97, 98, 107, 108, 109, 115, 116, 120, 121, 122}
+  LetterChars = {97, 98, 102, 103, 105, 107, 108, 109, 115, 116, 120, 121, 122}
   DigitChars = {48, 49, 50, 51, 52, 53, 54, 55, 56, 57}
 INVARIANT ShapeIsEval4T
 POSTCONDITION TraceAccepted
